@@ -60,3 +60,30 @@ package cff
 //@   requires o != nil
 //@   ensures yes == (o.ROS != nil)
 //@   modifies nothing
+
+// INDEX encoding (Adobe TN 5176 section 5): count, offSize, offsets starting
+// at 1, data.  Every offset must fit into offSize bytes (lossless), offSize
+// is in 1..4, the number of bytes emitted is 3 + (count+1)*offSize + body.
+//@ spec sumBlob(d cffIndex, k int) int = ite(k <= 0, 0, sumBlob(d, k-1) + len(d[k-1]))
+//@ func (data cffIndex) encode() (res []byte)   props: C13 C01
+//@   requires forall k int :: 0 <= k && k <= len(data) ==> 0 <= sumBlob(data, k) && sumBlob(data, k) <= sumBlob(data, len(data)) && sumBlob(data, k) <= 1099511627776
+//@   may_panic
+//@   ensures len(data) == 0 ==> len(res) == 2
+//@   return_assert len(data) > 0 ==> 1 <= offSize && offSize <= 4 && len(res) == 3 + (count + 1)*offSize + sumBlob(data, count)
+//@   modifies nothing
+//@   loop 0
+//@     invariant bodyLength == sumBlob(data, iter) && count == len(data) && count < 65536
+//@   loop 1
+//@     invariant 1 <= offSize && offSize <= 6 && bodyLength == sumBlob(data, count) && count == len(data) && count < 65536 && count >= 1
+//@     decreases 6 - offSize
+//@   loop 2
+//@     invariant 1 <= offSize && offSize <= 4 && bodyLength == sumBlob(data, count) && count == len(data) && count < 65536 && count >= 1 && out != nil && fresh(out)
+//@     invariant 0 <= i && i <= count + 1 && pos == 1 + sumBlob(data, min(i, count)) && bodyLength + 1 < pow2(8*offSize)
+//@     invariant blen(out) == 3 + i*offSize
+//@     decreases count + 1 - i
+//@   loop 3
+//@     invariant 0 <= j && j <= offSize && 1 <= offSize && offSize <= 4 && 0 <= i && i <= count && pos == 1 + sumBlob(data, i) && out != nil && fresh(out) && blen(out) == 3 + i*offSize
+//@     decreases offSize - j
+//@   loop 4
+//@     invariant 0 <= i && i <= count && out != nil && fresh(out) && count == len(data) && blen(out) == 3 + (count+1)*offSize + sumBlob(data, i) && 1 <= offSize && offSize <= 4
+//@     decreases count - i
